@@ -69,7 +69,11 @@ Fixpoint spec_go (sch : schema) (d : db) (steps : list (stmt * hobs)) : bool :=
 Definition spec_ok (c : case) : bool :=
   match c with Hist sch steps => spec_go sch db_empty steps end.
 
+(* the recorded findings that are still open (Model/ConstrClass.v kn_hist_class) *)
 Definition known_class (c : case) : Z :=
+  match c with Hist sch steps => kn_hist_class sch (map fst steps) end.
+(* the side conditions of the theorems (known findings + conditions the proofs still use) *)
+Definition side_class (c : case) : Z :=
   match c with Hist sch steps => hist_class sch (map fst steps) end.
 
 Fixpoint failures_from (i : Z) (cs : list case) : list (Z * bool * bool * Z) :=
